@@ -281,6 +281,8 @@ def kinds_for(p, want_async=True):
         ks = [k for k in ks if k in ("join", "try_join", "join_async", "try_join_async")]
     if p.joiner == "Transposed":
         ks = [k for k in ks if k == "try_join" or (k.startswith("try_") and k in ASYNC_KINDS)]
+        if getattr(p, "sync_transposed", False):
+            ks = ["try_join"]
     return ks
 
 
@@ -506,14 +508,25 @@ def gen_joiner_prog(pid, rng):
     p.tags = ["joiner", "rand"]
     n = rng.randint(1, 4)
     single_step = p.joiner == "Transposed"
+    # `transpose_results(false)` in every step of the sequential try macro: the joiner's Ok tuple is taken apart between the
+    # steps, so the next step of a branch continues from the unwrapped value (its first action is a `->` taking a Val);
+    # all branches have the same depth (a finished branch would meet the final transposer unwrapped)
+    p.sync_transposed = single_step and pid % 2 == 1
+    if p.sync_transposed:
+        n = rng.randint(2, 4)
+        single_step = False
+        eq_depth = rng.randint(2, 3)
     for bi in range(n):
-        d = 1 if single_step else rng.randint(1, 3)
+        d = 1 if single_step else (eq_depth if p.sync_transposed else rng.randint(1, 3))
         steps = []
         for k in range(d):
             acts = []
             if k == 0:
                 acts.append(Act("Src", p.nid()))
                 acts += gen_simple_ops(p, rng, rng.randint(0, 2), allow_or=False)
+            elif p.sync_transposed:
+                acts.append(Act("ThenV", p.nid()))
+                acts += gen_simple_ops(p, rng, rng.randint(0, 2), allow_or=False, caps=0.2)
             else:
                 acts += gen_simple_ops(p, rng, rng.randint(1, 2), allow_or=False, caps=0.2)
             steps.append(acts)
